@@ -20,7 +20,7 @@ CONSTANT NsTarget(_)     \* NS value -> relative name of the name server (a
                          \* name that never exists in the zone = out of zone)
 
 Apex == <<>>
-AddrType == "A"
+AddrTypes == {"A", "AAAA"}    \* glue = the address RRsets (both families) of a name server
 
 Rec(n, t, x) == <<n, t, x>>
 OwnerOf(r) == r[1]
@@ -51,11 +51,11 @@ ValidZone(C) ==
        /\ RRset(C, n, "CNAME") # {} => TypesAt(C, n) = {"CNAME"}
        /\ RRset(C, n, "DS") # {} => RRset(C, n, "NS") # {}
        /\ (n \in Cuts(C)) =>
-            /\ TypesAt(C, n) \subseteq {"NS", "DS", AddrType}
+            /\ TypesAt(C, n) \subseteq {"NS", "DS"} \cup AddrTypes
             /\ ~IsWildcard(n)
        \* strictly below a cut: only address records of that cut's servers
        /\ \A c \in Cuts(C) : StrictlyBelow(n, c) =>
-            /\ TypesAt(C, n) \subseteq {AddrType}
+            /\ TypesAt(C, n) \subseteq AddrTypes
             /\ \E ns \in RRset(C, c, "NS") : NsTarget(ValOf(ns)) = n
 
 \* ------------------------------------------------------------------- answers
@@ -76,7 +76,7 @@ Referral(c, ns, ds, glue) ==
 \* the others may be given (RFC 1034 4.3.2 step 3b "whatever addresses are
 \* available")
 AvailGlue(C, c) ==
-  {r \in C : TypeOf(r) = AddrType /\ \E ns \in RRset(C, c, "NS") : NsTarget(ValOf(ns)) = OwnerOf(r)}
+  {r \in C : TypeOf(r) \in AddrTypes /\ \E ns \in RRset(C, c, "NS") : NsTarget(ValOf(ns)) = OwnerOf(r)}
 RequiredGlue(C, c) == {r \in AvailGlue(C, c) : IsSuffixOf(c, OwnerOf(r))}
 
 Referrals(C, c) ==
